@@ -23,6 +23,12 @@ type MsgSpec struct {
 	Flags    uint8         `json:"flags"`
 	MsgID    uint32        `json:"mid"`
 	Payloads []PayloadSpec `json:"payloads,omitempty"`
+	// Bookkeeping noise: the value the header's NextPayload field (and, if Junk, the
+	// PayloadBytes field) holds when the message object reaches the library, as it does
+	// for a reused or previously decoded message object. Not part of the message's
+	// meaning: ignored by canon()/specEqual (the properties exclude header bookkeeping).
+	HdrNext uint8 `json:"hdr_next,omitempty"`
+	Junk    bool  `json:"hdr_junk,omitempty"`
 }
 
 type PayloadSpec struct {
@@ -234,6 +240,10 @@ func (m *MsgSpec) build() (*message.IKEMessage, error) {
 	msg.MajorVersion = m.Major
 	msg.MinorVersion = m.Minor
 	msg.Flags = m.Flags
+	msg.NextPayload = m.HdrNext
+	if m.Junk {
+		msg.PayloadBytes = []byte{0x2e, 0, 0, 8, 0xde, 0xad, 0xbe, 0xef}
+	}
 	return msg, nil
 }
 
